@@ -44,6 +44,22 @@ def harvest(prop, wt, name, needs):
     print("harvested", d)
 
 
+def harvestdir(prop, src, name, needs):
+    """harvest from a directory holding patch.diff, demo.py, NOTES.md (one change of an agent that delivered several)"""
+    d = VERIF / "seeded" / name
+    d.mkdir(parents=True, exist_ok=True)
+    diff = open(os.path.join(src, "patch.diff")).read()
+    (d / "patch.diff").write_text(diff)
+    wt = os.path.dirname(os.path.dirname(os.path.abspath(src)))
+    for f in ("demo.py", "NOTES.md"):
+        if os.path.exists(os.path.join(src, f)):
+            (d / f).write_text(open(os.path.join(src, f)).read().replace(wt, "<worktree>"))
+    meta = {"property": prop, "name": name, "origin": "sub-agent given only the property text and a scratch worktree",
+            "needs_to_manifest": needs, "files_changed": [l[6:] for l in diff.splitlines() if l.startswith("+++ b/")]}
+    (d / "meta.json").write_text(json.dumps(meta, indent=1) + "\n")
+    print("harvested", d)
+
+
 def verify(name, all_checks=False, tier="quick", before=False):
     d = VERIF / "seeded" / name
     meta = json.loads((d / "meta.json").read_text())
@@ -121,6 +137,8 @@ if __name__ == "__main__":
     a = sys.argv[1:]
     if a[0] == "harvest":
         harvest(a[1], a[2], a[3], a[4])
+    elif a[0] == "harvestdir":
+        harvestdir(a[1], a[2], a[3], a[4])
     elif a[0] == "verify":
         tier = a[a.index("--tier") + 1] if "--tier" in a else "quick"
         verify(a[1], "--all-checks" in a, tier, "--before" in a)
